@@ -5,6 +5,7 @@ import (
 
 	"github.com/jsightapi/jsight-schema-go-library/bytes"
 	"github.com/jsightapi/jsight-schema-go-library/errors"
+	"github.com/jsightapi/jsight-schema-go-library/internal/lexeme"
 	"github.com/jsightapi/jsight-schema-go-library/internal/sync"
 	internalSchema "github.com/jsightapi/jsight-schema-go-library/notations/jschema/internal/schema"
 	"github.com/jsightapi/jsight-schema-go-library/notations/jschema/internal/schema/constraint"
@@ -49,7 +50,9 @@ func (b *exampleBuilder) Build(node internalSchema.Node) ([]byte, error) {
 
 func (b *exampleBuilder) buildExampleForObjectNode(node *internalSchema.ObjectNode) ([]byte, error) {
 	if node.Constraint(constraint.TypesListConstraintType) != nil {
-		return nil, errors.ErrUserTypeFound
+		// Report where the unsupported node is: a bare code would reach the caller
+		// without file and position.
+		return nil, lexeme.NewLexEventError(node.BasisLexEventOfSchemaForNode(), errors.ErrUserTypeFound)
 	}
 
 	buf := exampleBufferPool.Get()
@@ -113,7 +116,9 @@ func (b *exampleBuilder) buildObjectKey(k internalSchema.ObjectNodeKey) ([]byte,
 
 func (b *exampleBuilder) buildExampleForArrayNode(node *internalSchema.ArrayNode) ([]byte, error) {
 	if node.Constraint(constraint.TypesListConstraintType) != nil {
-		return nil, errors.ErrUserTypeFound
+		// Report where the unsupported node is: a bare code would reach the caller
+		// without file and position.
+		return nil, lexeme.NewLexEventError(node.BasisLexEventOfSchemaForNode(), errors.ErrUserTypeFound)
 	}
 
 	buf := exampleBufferPool.Get()
